@@ -54,10 +54,14 @@ AgreeOk(e) ==
 
 (* ---- C08: compile is all-or-nothing ---- *)
 (* dest: "absent" | "file" | "longer" (this object + stale tail) | "devfull" | "nodir";  before/after: file bytes (or <<-1>> if absent) *)
+(*       "nonutf8" / "longutf8" (absent; a name that is not UTF-8 / long with multi-byte characters)                                *)
+(*       "absent-outfull" / "file-outfull" (absent / existing, and the command's stdout accepts no data)                            *)
+(* The property does not say WHICH of its two outcomes a run must take when only the messages cannot be printed, nor that a        *)
+(* failure may not be a panic: only that the outcome is one of the two.                                                            *)
+RegularDest == {"absent", "file", "longer", "nonutf8", "longutf8", "absent-outfull", "file-outfull"}
 AtomicOk(e) ==
   LET ok == Accepts(e.ast, e.stack) IN
-  /\ e.code # 101
-  /\ (e.code = 0 => /\ ok /\ e.dest \in {"absent", "file", "longer"} /\ e.after = ObjectBytes(e.ast))
+  /\ (e.code = 0 => /\ ok /\ e.dest \in RegularDest /\ e.after = ObjectBytes(e.ast))
   /\ (e.code # 0 => e.after = e.before)
   /\ (~ok => e.code # 0)
   /\ (e.dest \in {"devfull", "nodir"} => e.code # 0)
